@@ -187,10 +187,19 @@ func (r *Reader) Info() (*Info, error) {
 	if r.rs == nil {
 		return nil, fmt.Errorf("cannot get info from non-seekable reader")
 	}
+	// reading the summary moves the stream; put it back afterwards so that a
+	// sequential read started after Info begins where it would have without it
+	pos, err := r.rs.Seek(0, io.SeekCurrent)
+	if err != nil {
+		return nil, fmt.Errorf("failed to get current stream position: %w", err)
+	}
 	it := r.indexedMessageIterator(&ReadOptions{
 		UseIndex: true,
 	})
-	err := it.parseSummarySection()
+	err = it.parseSummarySection()
+	if _, seekErr := r.rs.Seek(pos, io.SeekStart); seekErr != nil && err == nil {
+		err = fmt.Errorf("failed to restore stream position: %w", seekErr)
+	}
 	if err != nil {
 		return nil, err
 	}
